@@ -39,6 +39,13 @@ CHECKS['C13'] = dict(
     note='Trusted: DAG enumerator and oracle in ddv/checks/c13.py.',
     design='3/C13')
 
+CHECKS['C09'] = dict(
+    level='exploration', engine='ENUM',
+    technique='exhaustive decision-table enumeration of comparison options x run outcomes through the real checker with real subprocesses, against an independent statement of the rule',
+    text='(a) all 16 384 cases of checker.matches_golden (4 flags/match strings x 32 golden x 32 run outcomes); (b) the wiring in do_golden_runs/check() with real sh commands whose exit code and streams are scripted per candidate: the option combinations of --ignore-output/--ignore-out/--ignore-err/--match-out/--match-err x cross-check absent/present with its three options x --unchecked, each against 18 outcome classes per command (25 k check() calls quick, every combination in thorough), incl. which commands were actually run; (c) the argv seen by the command for 4 input extensions x 0-2 extra arguments x cross-check arguments through tmpfiles.init/copy_binaries/check_exprs.',
+    note='Trusted: the acceptance rule as written in ddv/checks/c09.py from the property statement. Explicit --timeout 120 keeps machine load from turning runs into timeouts (timeouts are C10).',
+    design='3/C09')
+
 ENGINES = [
     dict(name='ENUM', path='ddv/sexp.py', serves_properties=['C07', 'C08', 'C09', 'C11', 'C12', 'C13', 'C14', 'C16', 'C17'],
          kind_free_text='bounded-exhaustive enumerators (trees, DAG sharing patterns, lexeme sequences, option sequences) + independent reference models'),
